@@ -1,24 +1,29 @@
 -------------------------------- MODULE JWTCases --------------------------------
 (* C09: the verification cases, enumerated by TLC (written out by Plan_JWT, model-   *)
-(* checked by MC_JWT):                                                             *)
-(* the FULL product within each block                                              *)
-(*   time       clock (with / without sub-second part) x skew x exp x nbf x iat     *)
-(*              (absent, boundary now -/+ skew + delta incl. fractions) x            *)
-(*              AllowMissingExpiration x ExpectIssuedInThePast                       *)
-(*   timefrac   exp / nbf / iat with a fractional part, one at a time                 *)
+(* checked by MC_JWT): the FULL product within each block                          *)
+(*   time       clock (with / without sub-second part) x skew {0, 1 s, 10 min} x     *)
+(*              exp x nbf x iat (absent, the whole seconds around each rule's own    *)
+(*              boundary now -/+ skew) x AllowMissingExpiration x                    *)
+(*              ExpectIssuedInThePast                                                *)
+(*   timefrac   exp / nbf / iat with a fractional part around the boundaries, just   *)
+(*              below 0 and just above the maximum, one claim at a time              *)
 (*   timetype   exp / nbf / iat of the wrong JSON type or out of range               *)
-(*   presence   typ x iss x aud (absent / expected / other / mistyped) x validator   *)
-(*              expectation (none / expected / ignore) for each                      *)
-(*   strings    sub, jti, iss typing; custom claims of every JSON kind               *)
-(*   header     key algorithm x kid strategy of two enabled keys (+ a disabled one)  *)
-(*              x who signed x alg header x kid header x crit                        *)
-(*   struct     dots / empty parts x base64 variant of each part                     *)
-(*   json       shape of the header and of the claims-set text                       *)
-(* with the other blocks at a passing value (ctx "pass") and at a failing one (a     *)
-(* forged signature, an expired token).  A case is abstract (module JWT) plus the    *)
-(* JSON text of its header and claims set (module JWTText); the Go driver encodes,   *)
-(* signs with its own JWS encoder and calls the real verifier; Trace_JWT judges.      *)
-(* MC_JWT model-checks meta-properties of Decide over the same case set.             *)
+(*   presence   typ x iss x aud (absent / expected / other / mistyped; aud as string, *)
+(*              list, empty list, list with a non-string) x validator expectation     *)
+(*              (none / expected / ignore) for each                                  *)
+(*   strings    sub, jti, iss, typ typing; custom claims of every JSON kind           *)
+(*   header     key algorithm x kid strategies of two enabled keys (+ a disabled key  *)
+(*              that would accept any kid) x who signed (each key, the disabled key,  *)
+(*              a foreign key, the right material under the other algorithm, a        *)
+(*              flipped / garbage / empty signature, HMAC under the public key) x     *)
+(*              alg header (own, other, none, lower case, other family, absent,       *)
+(*              non-string) x kid header x crit                                      *)
+(*   struct     number and place of dots, white space x base64 variant of each part   *)
+(*   json       shape of the header text and of the claims-set text                   *)
+(* with the other blocks at a passing value (ctx "pass") and at a failing one (a      *)
+(* forged signature, an expired token, a crit header).  A case is abstract (module    *)
+(* JWT); its JSON text is JWTText's.  Sign cases (RawJWTOptions combinations for the   *)
+(* direction Tink -> specification) are at the end.                                   *)
 EXTENDS JWTText, JWS, Json, IOUtils, SequencesExt
 
 Tier == IF "VERIF_TIER" \in DOMAIN IOEnv THEN IOEnv.VERIF_TIER ELSE "quick"
